@@ -32,6 +32,19 @@ pub const DEFAULT_RPC_TIMEOUT: Duration = Duration::from_secs(10);
 pub const DEFAULT_CONNECT_RETRY_ATTEMPTS: u32 = 10;
 pub const DEFAULT_CONNECT_RETRY_DELAY: Duration = Duration::from_millis(500);
 
+/// Forgets an outstanding remote call when the call is over, however it ends: with a result, or
+/// because its future was dropped before completion (an outer timeout, `select!`, an aborted task).
+struct PendingRpcGuard<'a> {
+    pending: &'a DashMap<String, oneshot::Sender<OwnedTerm>>,
+    key: &'a str,
+}
+
+impl Drop for PendingRpcGuard<'_> {
+    fn drop(&mut self) {
+        self.pending.remove(self.key);
+    }
+}
+
 pub struct Node {
     name: Atom,
     cookie: String,
@@ -669,6 +682,11 @@ impl Node {
         #[cfg(edp_rs_verif)]
         edp_client::verif_hooks::yield_point("rpc:before_insert").await;
         self.pending_rpcs.insert(pid_str.clone(), tx);
+        // from here on the entry goes away with this call, also when the future is dropped half way
+        let _pending_guard = PendingRpcGuard {
+            pending: &self.pending_rpcs,
+            key: &pid_str,
+        };
         #[cfg(edp_rs_verif)]
         edp_client::verif_hooks::yield_point("rpc:after_insert").await;
 
